@@ -266,7 +266,7 @@ theorem seq_step (log : List Entry) (lo : Int) (c : ACfg)
   simp only [sstep]
   simp only [wfOp, Bool.or_eq_true, Bool.and_eq_true, List.all_eq_true, Bool.not_eq_true',
     decide_eq_true_eq] at hw
-  rcases hw with (⟨hs, hd⟩ | ⟨hs, hd⟩) | hs
+  rcases hw.2 with ((⟨hs, hd⟩ | ⟨hs, hd⟩) | hs) | hs
   · -- a difference carrying `direct`
     subst hs
     have hcov : tl = true ∨ ∀ f ∈ log, lo < f.pos → f.pos ≤ x →
@@ -328,6 +328,10 @@ theorem seq_step (log : List Entry) (lo : Int) (c : ACfg)
     subst hs
     simp only [tooLongShape, callEvs, safe, accD, accTl, Bool.true_or, Bool.and_true]
     exact ⟨trivial, Or.inl rfl, hI.pend⟩
+  · -- only the callback
+    subst hs
+    simp only [cbOnlyShape, callEvs, safe, accD, accTl]
+    exact ⟨trivial, Or.inl rfl, hI.pend⟩
 
 theorem srun_inv (log : List Entry) (c : ACfg) (hg : GoodCfg c) (c0 lo : Int) (hc0 : 0 ≤ c0)
     (ht : tiled c0 log = true) (ops : List SOp) :
@@ -354,6 +358,9 @@ theorem srun_inv (log : List Entry) (c : ACfg) (hg : GoodCfg c) (c0 lo : Int) (h
         simp only [sstep, safe, accD, accTl, true_and]
         exact ⟨hI.cov, hI.pend⟩
       | seq calls x direct => exact seq_step log lo c b D tl calls x direct hw.1 hI
+      | fire =>
+        simp only [sstep, safe, accD, accTl, true_and]
+        exact ⟨hI.cov, hI.pend⟩
     obtain ⟨h1, h2⟩ := ih _ _ _ hstep.2 hw.2
     simp only [srun]
     rw [safe_append, accD_append, accTl_append]
